@@ -60,7 +60,7 @@ ProofMsgs(p) ==
 MCNext ==
     \/ \E p \in MCPeers : Connect(p) \/ Disconnect(p)
     \/ Advance(1) \/ Advance(3)
-    \/ \E o \in Oracles : RefreshTick(o, {})
+    \/ \E o \in Oracles : RefreshTick(o, {}, {})
     \/ \E p \in MCPeers, b \in AnnounceSet :
          \E o \in Oracles :
             RecvLastState(p, [b |-> b, ok |-> Mined(world, b) /\ Rooted(world, b)], o)
